@@ -332,6 +332,10 @@ class PartitioningPatternEncoder(PatternEncoderBase):
         if n_min_total > len(tgt):
             return False
 
+        # Check if there is anything to choose: the design variables need at least two options
+        if len(src)+(1 if tgt[0].conns == [0, 1] else 0) < 2:
+            return False
+
         return True
 
     def _encode_effective(self, effective_settings: MatrixGenSettings, existence: NodeExistence) -> List[DiscreteDV]:
